@@ -1382,7 +1382,12 @@ func (s *BgpServer) processRTCMembership(peer *peer, path *table.Path) {
 			withdrawn := make([]*table.Path, 0, len(filtered))
 			for _, p := range filtered {
 				if !peer.interestedIn(p) {
-					withdrawn = append(withdrawn, p)
+					// the wildcard scan yields the routes themselves
+					w := p
+					if !w.IsWithdraw {
+						w = p.Clone(true)
+					}
+					withdrawn = append(withdrawn, w)
 				}
 			}
 			peer.updateRoutes(withdrawn...)
